@@ -94,6 +94,10 @@ class ExprMixin:
                         lo = next(it) if parts[0] is not None else None
                         hi = next(it) if parts[1] is not None else None
                         step = next(it) if parts[2] is not None else None
+                        if isinstance(base.t, TStr) and step is None:
+                            # ghost: bounds of the most recent string slice (for tiling assertions)
+                            s2.env['_slice_lo'] = lo if (lo is not None and isinstance(lo.t, TInt)) else mk_int(0)
+                            s2.env['_slice_hi'] = hi if (hi is not None and isinstance(hi.t, TInt)) else mk_int(z3.Length(base.e))
                         yield s2, self.slice(base, lo, hi, step, node)
                     continue
                 for s2, idx in self.ev(node.slice, s1):
